@@ -50,19 +50,38 @@ def firstDiff (a b : List CEv) : Option (Nat × String × String) :=
     | [], y :: _, i => some (i, "<end>", y.toString)
   go a b 0
 
-/-- compare per-op traces; a hanging op is compared on the model's prefix only -/
-def compareOps : List OpTrace → List OpTrace → Nat → Option String
+def blkShow : Blk → String
+  | .c c ps => s!"{hexByte c}[{ps.length}:{if ps.length ≤ 12 then hexOf ps else hexOf (ps.take 6) ++ ".." ++ String.ofList (Nat.toDigits 16 (fnv1a ps).toNat)}]"
+  | .rst => "RST"
+  | .stray bs => s!"stray[{bs.length}]"
+
+/-- compare per-op traces under a view.  `raw`: every event (framing, polls, delays, reset
+    waveform).  `logical`: only what the controller sees — the (command | data) blocks and hardware
+    resets — plus results and accessor values; an extra wait, a different chunking or delay does
+    not disturb it.  A hanging op is compared on the model's prefix only. -/
+def compareOps (view : String) : List OpTrace → List OpTrace → Nat → Option String
   | [], [], _ => none
   | m :: ms, i :: is, k =>
     if m.res ≠ i.res then some s!"op={k} result model={m.res.toString} impl={i.res.toString}"
     else if m.bg ≠ i.bg then some s!"op={k} bg model={m.bg} impl={i.bg}"
+    else if view == "logical" then
+      let bm := blocksOfEvs m.evs
+      let bi := blocksOfEvs i.evs
+      if m.res = .hang ∨ bm = bi then compareOps view ms is (k + 1)
+      else
+        let rec fd : List Blk → List Blk → Nat → String
+          | x :: xs, y :: ys, j => if x = y then fd xs ys (j + 1) else s!"blk={j} model=[{blkShow x}] impl=[{blkShow y}]"
+          | x :: _, [], j => s!"blk={j} model=[{blkShow x}] impl=[<end>]"
+          | [], y :: _, j => s!"blk={j} model=[<end>] impl=[{blkShow y}]"
+          | [], [], j => s!"blk={j}"
+        some s!"op={k} {fd bm bi 0}"
     else
       let cm := canon m.evs
       let ci := canon i.evs
       let ci := if m.res = .hang then ci.take cm.length else ci
       match firstDiff cm ci with
       | some (j, a, b) => some s!"op={k} ev={j} model=[{a}] impl=[{b}]"
-      | none => compareOps ms is (k + 1)
+      | none => compareOps view ms is (k + 1)
   | m :: _, [], k => some s!"op={k} missing in impl (model {m.res.toString})"
   | [], i :: _, k => some s!"op={k} missing in model (impl {i.res.toString})"
 
@@ -155,7 +174,7 @@ partial def loop (hs ht : IO.FS.Handle) (cfg : Cfg) (n drift : Nat) : IO (Nat ×
         for o in ai.notes do IO.println s!"O {sc.id} {o}"
         let am := Oracle.panelVerdicts cfg.f cfg.props p sc sc.ops ops model model
         for (pr, ftxt) in am.fails.eraseDups do IO.println s!"VM {sc.id} {pr} FAIL {ftxt}"
-      match compareOps model impl 0 with
+      match compareOps cfg.view model impl 0 with
       | none => do
         IO.println s!"C {sc.id} same"
         loop hs ht cfg (n + 1) drift
